@@ -5,7 +5,8 @@ ID = 'C09'
 LEVEL = 'exploration'
 RULE = ('Engine A: complete enumeration of FULL(G<=3) eligibility x constraint-subset spaces and deviation-bounded '
         'DEV(G,d) spaces over ALL parameter dimensions (including mutually unsatisfiable constraints, empty size '
-        'ranges, no control/treatment-eligible geo, all geos excluded, window exactly n_test+3), both searches. '
+        'ranges, no control/treatment-eligible geo, all geos excluded, window exactly n_test+3), both searches; REUSE: the same on a '
+        'data object shared with (and used in between by) another matched-markets object. '
         'Oracle: return value is a list or the exception is ValueError; per-case wall limit turns non-termination '
         'into a violation. Non-trivial = the search answered with an empty list or ValueError (nothing-feasible '
         'branch) or ran under >= 1 deviation from the default configuration; distinct = distinct case.')
@@ -51,6 +52,9 @@ def cases(tier, seed):
         for c in spaces.with_methods(cfg):
             if spaces.precondition_ok(c):
                 out.append(c)
+    pB4 = {'name': 'B', 'G': 4, 'T': 12}
+    out += spaces.reuse_space(pB4, spaces.ALL_PARAMS, {}, d=2 if tier == 'thorough' else 1)
+    out += spaces.reuse2_space(pB4, {})
     out.sort(key=lambda c: (c['deviations'], c['panel']['G']))
     return out
 
